@@ -371,6 +371,33 @@ pub fn abs_line(out: &str, storage: &Path, net: &[String]) -> String {
     )
 }
 
+// the download directory: `<n>` and `<n>.full` files (anything else is listed by name)
+pub fn abs_dls(cache: &Path) -> String {
+    let dir = cache.join("downloads");
+    let mut items: Vec<(u128, u8, String)> = vec![];
+    if let Ok(rd) = std::fs::read_dir(&dir) {
+        for e in rd.flatten() {
+            let name = e.file_name().to_string_lossy().to_string();
+            let (stem, full) = match name.strip_suffix(".full") {
+                Some(s) => (s.to_string(), true),
+                None => (name.clone(), false),
+            };
+            let tag = match std::fs::read(e.path()) {
+                Ok(b) => format!("F{}.{:08x}", b.len(), fnv(&b)),
+                Err(_) => "D".to_string(),
+            };
+            match stem.parse::<u128>() {
+                Ok(n) if n.to_string() == stem => {
+                    items.push((n, full as u8, format!("{}{}:{}", n, if full { "f" } else { "" }, tag)))
+                }
+                _ => items.push((u128::MAX, 2, format!("x{}:{}", hx(&name), tag))),
+            }
+        }
+    }
+    items.sort();
+    items.into_iter().map(|x| x.2).collect::<Vec<_>>().join(",")
+}
+
 pub fn wait_quiescent() {
     // all helper threads (event reports, decompression) have exited when only this thread is left
     let start = std::time::Instant::now();
@@ -875,6 +902,7 @@ pub fn main(args: &[String]) -> i32 {
     let mut cur_hist: Option<PathBuf> = None;
     let mut sched_threads: Vec<Vec<Vec<String>>> = vec![];
     let mut tracing = false;
+    let mut dls_on = false;
     let mut op_index = 0usize;
     let cut_op: Option<usize> = std::env::var("UVH_CUT_OP").ok().and_then(|x| x.parse().ok());
     use std::io::Write;
@@ -909,6 +937,9 @@ pub fn main(args: &[String]) -> i32 {
             "stall" => {
                 crate::sched::STALL.store(toks[1] == "on", std::sync::atomic::Ordering::SeqCst);
             }
+            "dls" => {
+                dls_on = toks[1] == "on";
+            }
             "trace" => {
                 tracing = true;
                 IS_MAIN.with(|m| m.set(true));
@@ -937,6 +968,8 @@ pub fn main(args: &[String]) -> i32 {
                     let a = std::mem::take(&mut *ACT.lock().unwrap());
                     let a = if toks[1] == "kill" || toks[1] == "dmg" { "-".to_string() } else { a.join(",") };
                     writeln!(out, "{} act={}", abs_line(&o, &w.storage, &net), a).unwrap();
+                } else if dls_on {
+                    writeln!(out, "{} dls={}", abs_line(&o, &w.storage, &net), abs_dls(&w.cache)).unwrap();
                 } else {
                     writeln!(out, "{}", abs_line(&o, &w.storage, &net)).unwrap();
                 }
